@@ -394,7 +394,13 @@ func batch(engine, prop, tier string, pe PropEngine) int {
 		}
 		reported++
 		min, steps := Minimise(pe, *v, 300, 90*time.Second)
-		path, err := WriteReplay(prop, tier, base, min, steps, groupCount[k])
+		digest := ""
+		if min.Class != "hang" {
+			if _, d, err := replayTimed(pe, min.Scenario, HangLimit); err == nil {
+				digest = d
+			}
+		}
+		path, err := WriteReplayDigest(prop, tier, base, min, steps, groupCount[k], digest)
 		if err != nil {
 			fatalf("writing replay: %v", err)
 		}
